@@ -38,6 +38,7 @@ import (
 	"encoding/json"
 	"fmt"
 	"math/rand"
+	"runtime/debug"
 	"sort"
 	"strings"
 	"sync"
@@ -99,6 +100,8 @@ type c18Call struct {
 	srvStream   atomic.Int64
 	ansStream   atomic.Int64 // stream and position (response message number) of the server's answer
 	ansSeq      atomic.Int64
+
+	duringFront bool // issued while no gRPC server was on the address
 
 	rl        *c18RLSpec   // ResolveLock calls only
 	invokeSeq int64        // logical time (run.seq) just before the call was handed to the client
@@ -166,10 +169,19 @@ type c18Scn struct {
 	FeedbackPct   int           `json:"feedback_pct"`
 	NoDrop        bool          `json:"no_drop"`
 	StalePct      int           `json:"stale_pct"`
+	// connection-level hostility
+	DialMs      int    `json:"dial_ms"`       // the client's dial time-out (0: the default 5 s)
+	Front       string `json:"front"`         // "", refuse, blackhole, closeaccept: what is on the address at first
+	FrontMs     int    `json:"front_ms"`      // for how long (0 with Front != "": the store never comes up)
+	DownMode    string `json:"down_mode"`     // what is on the address during a restart
+	CloseOnDown bool   `json:"close_on_down"` // pool closed when the server goes down: connection re-created meanwhile
+	MidPct      int    `json:"mid_pct"`       // calls with a time-out of 0.1x..2x the dial time-out
+	CancelMaxUs int    `json:"cancel_max_us"` // upper bound of the delay of delayed cancellations
 }
 
 var c18Shapes = []string{"clean", "timeouts-cancels", "streamkill", "restart", "restart-fwd", "streamkill-fwd",
-	"closeaddr", "closeaddr-async", "close-midway", "limit", "unary", "tiny-batch", "overload-wait", "mixed", "many-callers", "stale-ids"}
+	"closeaddr", "closeaddr-async", "close-midway", "limit", "unary", "tiny-batch", "overload-wait", "mixed", "many-callers", "stale-ids",
+	"conn-blackhole", "conn-closeaccept", "conn-latestart", "conn-neverup", "conn-restart-recreate"}
 
 func c18GenScn(rng *rand.Rand, idx int, shape string) *c18Scn {
 	pick := func(v ...int) int { return v[rng.Intn(len(v))] }
@@ -178,7 +190,7 @@ func c18GenScn(rng *rand.Rand, idx int, shape string) *c18Scn {
 		Policy:  []string{config.BatchPolicyBasic, config.BatchPolicyStandard, config.BatchPolicyPositive}[rng.Intn(3)],
 		Limit:   config.DefMaxConcurrencyRequestLimit,
 		Callers: pick(1, 2, 4, 16, 48, 128), AsyncPct: 30, NoDeadlinePct: 60, ShortPct: 6, CancelPct: 6, HighPriPct: 20, UnaryPct: 3,
-		LongTimeout: 2 * time.Second, HoldPct: 30, ShufflePct: 30, FeedbackPct: 10, StalePct: 6,
+		LongTimeout: 2 * time.Second, HoldPct: 30, ShufflePct: 30, FeedbackPct: 10, StalePct: 6, CancelMaxUs: 3000,
 	}
 	total := vrep.Pick(500, 1500) + rng.Intn(vrep.Pick(400, 1500))
 	switch shape {
@@ -210,6 +222,7 @@ func c18GenScn(rng *rand.Rand, idx int, shape string) *c18Scn {
 		// mostly deadline-less async requests racing with repeated pool closes: whatever is queued in a pool that
 		// gets closed has to be completed all the same
 		s.AsyncPct, s.NoDeadlinePct, s.ShortPct, s.CancelPct = 90, 80, 2, 2
+		s.DialMs = 1500 // a closed connection is noticed only after the dial time-out: keep that wait short here ("closeaddr" keeps the default)
 		s.Callers = pick(16, 48, 128)
 		for k := 1; k <= 7; k++ {
 			s.CloseAddrAt = append(s.CloseAddrAt, int64(k*total/8))
@@ -247,8 +260,34 @@ func c18GenScn(rng *rand.Rand, idx int, shape string) *c18Scn {
 		s.Fwd = true
 		s.CloseAddrAt = []int64{int64(2 * total / 3)}
 		s.ShortPct, s.CancelPct = 10, 10
+		s.DialMs = 1500
 	case "directed-stale-epoch-fwd", "directed-stale-epoch-direct":
 		s.MaxBatch, s.Conns, s.Fwd, s.HoldPct, s.ShufflePct, s.Callers = 128, 1, true, 0, 0, 1
+	case "conn-blackhole", "conn-closeaccept", "conn-latestart", "conn-neverup", "conn-restart-recreate":
+		// the first requests of a (re-)created connection meet a store that is down, black-holed or restarting, with
+		// time-outs on both sides of the dial time-out and cancellations during that phase
+		s.DialMs = pick(200, 300, 400)
+		s.LongTimeout = time.Second
+		s.MaxBatch, s.Conns = uint(pick(128, 128, 32)), uint(pick(1, 2))
+		s.Callers = pick(32, 64, 128)
+		total = 300 + rng.Intn(200)
+		s.MidPct, s.ShortPct, s.CancelPct, s.CancelMaxUs = 45, 10, 15, 150000
+		s.Fwd = rng.Intn(3) == 0
+		switch shape {
+		case "conn-blackhole":
+			s.Front, s.FrontMs = "blackhole", 250+rng.Intn(350)
+		case "conn-closeaccept":
+			s.Front, s.FrontMs = "closeaccept", 200+rng.Intn(300)
+		case "conn-latestart":
+			s.Front, s.FrontMs = "refuse", 100+rng.Intn(300)
+		case "conn-neverup":
+			s.Front = []string{"blackhole", "closeaccept", "refuse"}[rng.Intn(3)]
+			s.NoDeadlinePct = 20
+			total = 120 + rng.Intn(80)
+		case "conn-restart-recreate":
+			s.RestartAt = []int64{int64(total / 5), int64(total / 2)}
+			s.DownMs, s.DownMode, s.CloseOnDown = 150+rng.Intn(300), []string{"blackhole", "closeaccept", "refuse"}[rng.Intn(3)], true
+		}
 	case "stale-ids":
 		// many held responses (the flusher sends them in multi-response messages) and a hostile share of messages
 		// carrying an id the client no longer tracks
@@ -294,6 +333,9 @@ type c18Run struct {
 	bg     sync.WaitGroup
 	ccIDs  sync.Map // *grpc.ClientConn -> id (keeps the conn alive so that ids are never reused)
 	ccNext atomic.Int64
+
+	frontActive atomic.Int32 // > 0 while there is no gRPC server on the address (hostile front / down)
+	dialTO      time.Duration
 
 	seq     atomic.Int64 // logical clock shared by callers and server (ResolveLock oracle)
 	rlMu    sync.Mutex
@@ -464,6 +506,9 @@ func (run *c18Run) newCall(rng *rand.Rand, caller, seq int) *c18Call {
 		}
 	}
 	c.timeout = s.LongTimeout
+	if s.MidPct > 0 && rng.Intn(100) < s.MidPct {
+		c.timeout = time.Duration(s.DialMs*(10+rng.Intn(190))/100) * time.Millisecond // on both sides of the dial time-out
+	}
 	short := rng.Intn(100) < s.ShortPct
 	cancel := !short && rng.Intn(100) < s.CancelPct
 	if short {
@@ -478,7 +523,7 @@ func (run *c18Run) newCall(rng *rand.Rand, caller, seq int) *c18Call {
 		case p < 2:
 			c.cancelMode = c18CancelPre
 		case p < 11:
-			c.cancelMode, c.cancelDelay = c18CancelDelay, time.Duration(rng.Intn(3000))*time.Microsecond
+			c.cancelMode, c.cancelDelay = c18CancelDelay, time.Duration(rng.Intn(s.CancelMaxUs))*time.Microsecond
 			if rng.Intn(3) == 0 {
 				c.srvMode = c18SrvDrop // only the cancellation can end this call early
 			}
@@ -503,7 +548,10 @@ func (run *c18Run) newCall(rng *rand.Rand, caller, seq int) *c18Call {
 func (run *c18Run) issue(c *c18Call) {
 	defer func() {
 		if p := recover(); p != nil {
-			run.violate("panic:in-caller-goroutine", fmt.Sprintf("call %s panicked: %v", c.id, p), c)
+			api := map[bool]string{false: "sync", true: "async"}[c.async]
+			run.count("caller_panics", 1)
+			run.r.Violate("panic:in-caller-goroutine:"+api, fmt.Sprintf("scenario %d (%s): call %s panicked instead of returning a response or an error: %v", run.scn.Idx, run.scn.Shape, c.id, p),
+				map[string]any{"scenario": run.scn, "call": c.describe(), "panic": fmt.Sprint(p), "stack": string(debug.Stack())})
 			if c.returns.Load() == 0 {
 				run.finish(c, nil, errors.Errorf("panic: %v", p))
 			}
@@ -551,6 +599,7 @@ func (run *c18Run) issue(c *c18Call) {
 		}()
 	}
 	c.invokeSeq = run.seq.Add(1)
+	c.duringFront = run.frontActive.Load() > 0
 	if c.async {
 		cb := async.NewCallback(run.rl, func(resp *tikvrpc.Response, err error) { run.finish(c, resp, err) })
 		run.cl.SendRequestAsync(ctx, run.srv.addr, req, cb)
@@ -644,15 +693,26 @@ func c18RunScenario(t *testing.T, r *vrep.Report, scn *c18Scn, factor int) []str
 	rng := rand.New(rand.NewSource(scn.Seed))
 	run.srv = c18NewServer(run, c18SrvPlan{killProb: scn.KillProb, killMin: scn.KillMin, killMax: scn.KillMax,
 		restartAt: scn.RestartAt, downMs: scn.DownMs, holdPct: scn.HoldPct, shufflePct: scn.ShufflePct,
-		loadPct: scn.LoadPct, feedbackPct: scn.FeedbackPct, stalePct: scn.StalePct}, rand.New(rand.NewSource(rng.Int63())))
-	if err := run.srv.start(); err != nil {
+		loadPct: scn.LoadPct, feedbackPct: scn.FeedbackPct, stalePct: scn.StalePct,
+		frontMode: c18FrontMode(scn.Front), frontFor: time.Duration(scn.FrontMs) * time.Millisecond,
+		downMode: c18FrontMode(scn.DownMode), closeOnDown: scn.CloseOnDown}, rand.New(rand.NewSource(rng.Int63())))
+	run.dialTO = dialTimeout
+	if scn.DialMs > 0 {
+		run.dialTO = time.Duration(scn.DialMs) * time.Millisecond
+	}
+	startSrv := run.srv.start
+	if scn.Front != "" {
+		startSrv = run.srv.startBehindFront
+	}
+	if err := startSrv(); err != nil {
 		run.harnessError("cannot start server: " + err.Error())
 		return nil
 	}
 	tagStream := func(ctx context.Context, desc *grpc.StreamDesc, cc *grpc.ClientConn, method string, streamer grpc.Streamer, opts ...grpc.CallOption) (grpc.ClientStream, error) {
 		return streamer(metadata.AppendToOutgoingContext(ctx, c18CCMetaKey, run.ccID(cc)), desc, cc, method, opts...)
 	}
-	run.rpc = NewRPCClient(WithGRPCDialOptions(grpc.WithChainStreamInterceptor(tagStream)))
+	// the dial time-out is a fixed default in production; the connection-level scenarios shrink it so that they stay short
+	run.rpc = NewRPCClient(WithGRPCDialOptions(grpc.WithChainStreamInterceptor(tagStream)), func(o *option) { o.dialTimeout = run.dialTO })
 	run.cl = NewReqCollapse(NewInterceptedClient(run.rpc)) // wrapped as tikv.NewKVStore does
 	sendPanics0 := atomic.LoadInt64(&BatchSendLoopPanicCounter)
 
@@ -736,7 +796,7 @@ joinLoop:
 	run.bg.Wait()
 
 	// ---- recovery probes: drive every (conn, forwarded host) after the faults; they are ordinary monitored calls
-	if !run.closed.Load() {
+	if neverUp := scn.Front != "" && scn.FrontMs == 0; !run.closed.Load() && !neverUp {
 		for i := 0; i < 400 && run.srv.restartsPending(); i++ {
 			time.Sleep(5 * time.Millisecond)
 		}
@@ -777,7 +837,7 @@ joinLoop:
 	run.lostResponseCheck(all)
 	// (a closed or broken connection is noticed by waitConnReady only after the dial time-out, so that long a
 	// deadline-less call may legitimately stay pending)
-	pending := c18WaitAll(all, scn.LongTimeout+dialTimeout+time.Duration(factor)*2*time.Second)
+	pending := c18WaitAll(all, scn.LongTimeout+run.dialTO+time.Duration(factor)*2*time.Second)
 	if len(pending) > 0 {
 		run.lostResponseCheck(all)
 	}
@@ -795,7 +855,7 @@ joinLoop:
 			asyncAll = append(asyncAll, c)
 		}
 	}
-	missing := c18WaitAll(asyncAll, dialTimeout+3*time.Second)
+	missing := c18WaitAll(asyncAll, run.dialTO+3*time.Second)
 	run.srv.shutdown()
 	if len(missing) > 0 {
 		// quiescent: client closed, server gone, every sync caller returned.  Confirm once per process with a
@@ -895,6 +955,20 @@ func (run *c18Run) evaluate(all []*c18Call) {
 		if c.pri >= highTaskPriority {
 			run.count("calls_high_priority", 1)
 		}
+		hostile := ""
+		if c.duringFront && !c.probe {
+			hostile = "hostile_timeout_gt_dial"
+			if c.timeout == 0 {
+				hostile = "hostile_no_deadline"
+			} else if c.timeout < run.dialTO {
+				hostile = "hostile_timeout_lt_dial"
+			}
+			run.count("hostile_calls", 1)
+			run.count(hostile, 1)
+			if c.async {
+				run.count("hostile_calls_async", 1)
+			}
+		}
 		if c.returns.Load() == 0 {
 			outcomes["pending"]++
 			run.count("ret_never", 1)
@@ -927,6 +1001,9 @@ func (run *c18Run) evaluate(all []*c18Call) {
 			}
 			outcomes["ok"]++
 			run.count("ret_ok", 1)
+			if hostile != "" {
+				run.count("hostile_ret_ok", 1)
+			}
 			if c.async {
 				run.count("ret_ok_async", 1)
 			}
@@ -943,6 +1020,12 @@ func (run *c18Run) evaluate(all []*c18Call) {
 			cls := c18ErrClass(c, err)
 			outcomes[cls]++
 			run.count("ret_"+cls, 1)
+			if hostile != "" {
+				run.count("hostile_ret_"+cls, 1)
+				if cls == "timeout" && hostile == "hostile_timeout_lt_dial" && !c.async {
+					run.count("hostile_sync_timeout_before_dial_timeout", 1)
+				}
+			}
 			if c.async {
 				run.count("ret_err_async", 1)
 			}
@@ -1007,7 +1090,9 @@ func TestVerifC18BatchMultiplex(t *testing.T) {
 		desc, _ := json.Marshal(scn)
 		t.Logf("[c18] scenario %s", desc)
 		r.Flush()
+		t0 := time.Now()
 		susp := c18Uniq(c18RunScenario(t, r, scn, 1))
+		t.Logf("[c18] scenario %d (%s) took %dms", scn.Idx, scn.Shape, time.Since(t0).Milliseconds())
 		if len(susp) == 0 {
 			continue
 		}
@@ -1067,6 +1152,18 @@ func TestVerifC18BatchMultiplex(t *testing.T) {
 	r.Floor("srv_stale_pos_last", 100*q)
 	r.Floor("srv_stale_msgs_with_live_after", 150*q)
 	r.Floor("srv_stale_msgs_with_3plus_live", 60*q)
+	r.Floor("hostile_calls", 800*q)
+	r.Floor("hostile_calls_async", 150*q)
+	r.Floor("hostile_timeout_lt_dial", 200*q)
+	r.Floor("hostile_timeout_gt_dial", 200*q)
+	r.Floor("hostile_sync_timeout_before_dial_timeout", 100*q)
+	r.Floor("hostile_ret_cancelled", 30*q)
+	r.Floor("hostile_ret_ok", 20*q)
+	r.Floor("front_blackhole", 2)
+	r.Floor("front_closeaccept", 2)
+	r.Floor("front_refuse", 2)
+	r.Floor("front_never_up", 1)
+	r.Floor("closeaddr_while_down", 2)
 	r.Floor("rl_ok", 1200*q)
 	r.Floor("rl_ok_dup", 200*q)
 	r.Floor("rl_ok_other_region", 200*q)
@@ -1207,4 +1304,13 @@ func (run *c18Run) lostResponseCheck(all []*c18Call) {
 			fmt.Sprintf("%d async call(s) were answered by the server, later messages of the same stream have been delivered to their callers, yet these calls are not completed (first: %s, stream #%d message %d)",
 				len(bad), bad[0].id, bad[0].ansStream.Load(), bad[0].ansSeq.Load()), bad...)
 	}
+}
+
+func c18FrontMode(name string) int {
+	for i, n := range c18FrontName {
+		if n == name {
+			return i
+		}
+	}
+	return c18FrontNone
 }
